@@ -92,7 +92,7 @@ def make_engine(appends, contracts, harnesses):
         out['fns'] = info
         todo = [h for h in harnesses if not (h.get('tier') == 'thorough' and tier != 'thorough')]
         log('-- kani: %d harness(es)' % len(todo))
-        with ThreadPoolExecutor(max_workers=max(1, min(jobs, 4))) as ex:
+        with ThreadPoolExecutor(max_workers=max(1, min(jobs, 8))) as ex:
             results = list(ex.map(lambda h: run_harness(d, h['name'], h['timeout']), todo))
         for h, r in zip(todo, results):
             log('  kani %-45s %-8s %6.1fs' % (h['name'], r['status'], r['wall_s']))
